@@ -1346,4 +1346,18 @@ theorem mayDrop_spec (c : List QPt) (d : QPt) (i : Nat) :
 /-- `mayDrop_spec` is about something: index 1 of `exC` sits between points 0 and 2 -/
 example : 1 ∈ mayDrop exC ∧ 3 ∈ mayDrop exC ∧ 5 ∉ mayDrop exC := by decide +kernel
 
+/-- **C02_drop_ttGlyph**: whatever `TTGlyphPointPen.glyph(dropImpliedOnCurves=True, round=otRound)` returns for a glyph that ends
+    up simple satisfies the single-font predicate w.r.t. the glyph's own contours in TrueType convention -/
+theorem C02_drop_ttGlyph (o : Opts) (g : Glyph) (X : List (List TTPoint)) (h : ttGlyphDrop o g = .simple X) :
+    holdsDropGlyphMax (g.contours.map (fun c => toQPts (ttContour o c))) X = true := by
+  unfold ttGlyphDrop at h
+  split at h
+  · injection h with h; subst h; exact C02_drop_glyph_spec_max _
+  · cases h
+
+/-- a composite stays what it was without the option -/
+theorem C02_drop_composite (o : Opts) (g : Glyph) (h : (g.comps.isEmpty || !g.contours.isEmpty) = false) :
+    ttGlyphDrop o g = ttGlyph o g := by
+  simp [ttGlyphDrop, ttGlyph, h]
+
 end Ufo2ft.C02
